@@ -159,6 +159,17 @@ def classify_exc(e: BaseException) -> str:
     return "Other:" + type(e).__name__
 
 
+def exc_where(e: BaseException) -> str:
+    """innermost frame inside the explorerscript package: file:function"""
+    import traceback
+
+    frames = traceback.extract_tb(e.__traceback__)
+    for fr in reversed(frames):
+        if "/explorerscript/" in fr.filename and "/antlr/" not in fr.filename:
+            return fr.filename.split("/explorerscript/", 1)[1] + ":" + fr.name
+    return "?"
+
+
 def p_from_impl(p: Any) -> list:
     from explorerscript.ssb_converting import ssb_data_types as dt
 
@@ -246,7 +257,7 @@ def impl_compile(src: str, file_name: str = "/nonexistent/verif_main.exps", look
     except BaseException as e:  # noqa
         if isinstance(e, (KeyboardInterrupt, SystemExit)):
             raise
-        return {"ok": False, "err": classify_exc(e), "msg": str(e)[:300]}
+        return {"ok": False, "err": classify_exc(e), "msg": str(e)[:300], "where": exc_where(e)}
 
 
 def coroutines_for(infos: list, coros: list) -> list:
@@ -271,7 +282,7 @@ def impl_decompile(routines: list[list[dict]], infos: list, coros: list, perf: s
     except BaseException as e:  # noqa
         if isinstance(e, (KeyboardInterrupt, SystemExit)):
             raise
-        return {"ok": False, "err": classify_exc(e), "msg": str(e)[:300]}
+        return {"ok": False, "err": classify_exc(e), "msg": str(e)[:300], "where": exc_where(e)}
 
 
 def impl_ssbs_decompile(routines: list[list[dict]], infos: list, coros: list) -> dict:
@@ -284,7 +295,7 @@ def impl_ssbs_decompile(routines: list[list[dict]], infos: list, coros: list) ->
     except BaseException as e:  # noqa
         if isinstance(e, (KeyboardInterrupt, SystemExit)):
             raise
-        return {"ok": False, "err": classify_exc(e), "msg": str(e)[:300]}
+        return {"ok": False, "err": classify_exc(e), "msg": str(e)[:300], "where": exc_where(e)}
 
 
 def impl_ssbs_compile(src: str) -> dict:
@@ -299,7 +310,7 @@ def impl_ssbs_compile(src: str) -> dict:
     except BaseException as e:  # noqa
         if isinstance(e, (KeyboardInterrupt, SystemExit)):
             raise
-        return {"ok": False, "err": classify_exc(e), "msg": str(e)[:300]}
+        return {"ok": False, "err": classify_exc(e), "msg": str(e)[:300], "where": exc_where(e)}
 
 
 IMPL_FUNCS: dict[str, Callable[..., Any]] = {
@@ -343,6 +354,12 @@ def _init_worker() -> None:
     logging.disable(logging.CRITICAL)
     warnings.simplefilter("ignore")
     sys.setrecursionlimit(10000)
+    # ANTLR's ConsoleErrorListener writes every syntax error to stderr
+    try:
+        devnull = os.open(os.devnull, os.O_WRONLY)
+        os.dup2(devnull, 2)
+    except OSError:
+        pass
 
 
 _POOL: Any = None
